@@ -64,7 +64,6 @@ Proof.
   { intros i k. split; [apply (alookup_In id_eqb id_eqb_ok) | apply (In_alookup id_eqb id_eqb_ok); auto]. }
   constructor; auto.
   - eapply IdsC_nd_bkeys; eauto.
-  - intros i Hi. apply a2 in Hi as (n & Hn & ->). exists n. auto.
   - intros r1 r2 I1 I2 D n (X & Y). destruct (a5 r1 r2 I1 I2) as [E | [E | E]]; [contradiction | |]; unfold in_range in *; lia.
   - intros n r Hi Hr X. pose proof (a6 _ Hi r Hr) as Y. rewrite mk_id_mkid, id_n_mkid in Y. unfold in_range in X. lia.
   - intros sid i. split.
@@ -126,4 +125,850 @@ Proof.
   assert (L : req_lookup rid (m s) = Some (KCall None) \/ req_lookup rid (m s) = None).
   { destruct (req_lookup rid (m s)) as [k|] eqn:L; auto. left. apply (alookup_In id_eqb id_eqb_ok) in L. apply UK in L. subst; auto. }
   split; auto. unfold single_response. rewrite E. destruct L as [-> | ->]; reflexivity.
+Qed.
+
+(* ------------------------------------------------------------------------------------------- *)
+(* Part B: finished identifiers are never inserted again                                         *)
+(* ------------------------------------------------------------------------------------------- *)
+
+(* an id that has been allocated and is no longer in use: not a key, not queued, not referred to *)
+Definition retired (s : st) (i : id) : Prop := (exists n, n < next_id s /\ i = mk_id s n) /\ ~ used s i.
+
+Lemma retired_ext s s' i : Ext s s' -> retired s i -> retired s' i.
+Proof.
+  intros [e1 e2 e3 e4] ((n & Hn & ->) & U). split.
+  - exists n. split; [lia|]. rewrite !mk_id_mkid. congruence.
+  - intros H. apply e3 in H as [H | H]; auto.
+    eapply idlt_ge_False; [|exact H]. exists n. split; auto.
+Qed.
+
+Lemma retired_step s e i : Inv s -> retired s i -> retired (fst (fst (step s e))) i.
+Proof. intros I. apply retired_ext. apply (step_good s e I). Qed.
+
+Lemma retired_run es : forall s i, Inv s -> retired s i -> retired (fst (run s es)) i.
+Proof. intros s i I. apply retired_ext. apply (run_good es s I). Qed.
+
+(* a retired id matches nothing: an answer bearing it is fatal (NotPending), delivered to nobody *)
+Lemma retired_not_pending s i r : retired s i -> rs_id r = i -> single_response s r = RFatal s [] FNotPending.
+Proof.
+  intros (_ & U) E. unfold single_response, req_lookup. rewrite E.
+  assert (L : alookup id_eqb i (requests (m s)) = None).
+  { apply (alookup_None id_eqb id_eqb_ok). intros H. apply U. left. exact H. }
+  rewrite L. reflexivity.
+Qed.
+
+(* a key that leaves the table and is not referred to by a remaining entry is retired *)
+Lemma removed_retired s s' i : Inv s -> Ext s s' ->
+  In i (map fst (requests (m s))) -> ~ In i (map fst (requests (m s'))) ->
+  (forall j k, In (j, k) (requests (m s')) -> refs k <> Some i) -> retired s' i.
+Proof.
+  intros I [e1 e2 e3 e4] K NK NR. destruct (inv_core _ I) as (C & _ & _).
+  assert (LT : idlt (id_str s) (next_id s) i) by (apply (ic_lt_ids _ _ _ _ _ C); apply in_app_iff; auto).
+  split.
+  - destruct LT as (n & Hn & ->). exists n. split; [lia|]. rewrite mk_id_mkid. congruence.
+  - intros [H | [H | (j & k & H & R)]]; auto.
+    + apply e4 in H as [H | H].
+      * eapply IdsC_key_notq; eauto.
+      * eapply idlt_ge_False; eauto.
+    + eapply NR; eauto.
+Qed.
+
+Theorem no_capture idstr qc bc gate es1 e es2 i :
+  let s := fst (run (init idstr qc bc gate) es1) in
+  let s1 := fst (fst (step s e)) in
+  let s2 := fst (run s1 es2) in
+  In i (map fst (requests (m s))) -> ~ In i (map fst (requests (m s1))) ->
+  (forall j k, In (j, k) (requests (m s1)) -> refs k <> Some i) ->
+  (exists n, n < next_id s /\ i = mk_id s n) /\
+  ~ In i (map fst (requests (m s2))) /\ ~ In i (qids (qmsgs s2)) /\
+  forall r, rs_id r = i -> single_response s2 r = RFatal s2 [] FNotPending.
+Proof.
+  cbv zeta. intros K NK NR. pose proof (reachable_inv idstr qc bc gate es1) as I.
+  set (s := fst (run (init idstr qc bc gate) es1)) in *.
+  pose proof (step_good s e I) as (I1 & X1).
+  pose proof (removed_retired s _ i I X1 K NK NR) as R1.
+  pose proof (retired_run es2 _ i I1 R1) as R2.
+  destruct (inv_core _ I) as (C & _ & _).
+  split; [|split; [|split]].
+  - destruct (ic_lt_ids _ _ _ _ _ C i) as (n & Hn & ->); [apply in_app_iff; auto|]. exists n. auto.
+  - intros H. apply (proj2 R2). left. exact H.
+  - intros H. apply (proj2 R2). right; left. exact H.
+  - intros r E. eapply retired_not_pending; eauto.
+Qed.
+
+(* ------------------------------------------------------------------------------------------- *)
+(* Part C: closed cycles                                                                         *)
+(* ------------------------------------------------------------------------------------------- *)
+
+(* nothing in flight inside the client: alive, ungated, idle send task, empty front-to-back queue *)
+Definition quiet (s : st) : Prop :=
+  dead s = false /\ dying s = None /\ gated s = false /\ busy s = false /\ sendfail s = false /\
+  queue s = [] /\ waiting s = [] /\ (1 <= qcap s)%nat.
+
+(* the fields the cycles read, apart from the four tables *)
+Definition same_env (s s' : st) : Prop :=
+  id_str s' = id_str s /\ gone s' = gone s /\ bufcap s' = bufcap s /\ qcap s' = qcap s.
+
+Lemma same_env_refl s : same_env s s.
+Proof. repeat split. Qed.
+Lemma same_env_trans s1 s2 s3 : same_env s1 s2 -> same_env s2 s3 -> same_env s1 s3.
+Proof. unfold same_env. intuition congruence. Qed.
+
+Lemma finish_frame s : let s' := fst (finish_unsubs s) in
+  SameC s s' /\ busy s' = busy s /\ dying s' = dying s /\ sendfail s' = sendfail s /\ gone s' = gone s /\ subkind s' = subkind s.
+Proof.
+  unfold finish_unsubs. cbn [fst]. cbv zeta.
+  destruct (fold_drop_rx_same (filter (unsub_done s) (unsubw s)) s) as (A & _ & B & C & D & _ & E & F). cbv zeta in *.
+  destruct A. split; [constructor; st_simpl; auto|]. st_simpl. auto.
+Qed.
+
+Lemma drain_stop f s : waiting s = [] -> queue s = [] -> drain (S f) s = (s, []).
+Proof.
+  intros W Q. cbn [drain]. rewrite W. cbn [length admit_waiting].
+  destruct (busy s || dead s || match dying s with Some _ => true | None => false end); auto. rewrite Q. auto.
+Qed.
+
+Lemma drain_step f s msg q : waiting s = [] -> busy s = false -> dead s = false -> dying s = None -> queue s = msg :: q ->
+  drain (S f) s = let '(s1, o1) := handle_front (upd_queue s q []) msg in let '(s2, o2) := drain f s1 in (s2, o1 ++ o2).
+Proof.
+  intros W B D DY Q. cbn [drain]. rewrite W. cbn [length admit_waiting]. rewrite B, D, DY, Q, W. reflexivity.
+Qed.
+
+(* all fields but the tables, the channels, the unsubscribe futures and the history variable agree *)
+Record Proj (s2 s' : st) : Prop := {
+  pj_next : next_id s' = next_id s2; pj_str : id_str s' = id_str s2; pj_gone : gone s' = gone s2;
+  pj_subkind : subkind s' = subkind s2; pj_bufcap : bufcap s' = bufcap s2; pj_qcap : qcap s' = qcap s2;
+  pj_gated : gated s' = gated s2; pj_busy : busy s' = busy s2; pj_sendfail : sendfail s' = sendfail s2;
+  pj_dead : dead s' = dead s2; pj_dying : dying s' = dying s2; pj_queue : queue s' = queue s2; pj_waiting : waiting s' = waiting s2
+}.
+
+Lemma Proj_refl s : Proj s s.
+Proof. constructor; reflexivity. Qed.
+Lemma Proj_trans s1 s2 s3 : Proj s1 s2 -> Proj s2 s3 -> Proj s1 s3.
+Proof. intros [] []. constructor; congruence. Qed.
+
+Lemma Proj_drop_sink s c : Proj s (drop_sink s c).
+Proof. unfold drop_sink. destruct (chan_of s c); constructor; reflexivity. Qed.
+
+Lemma Proj_finish s : Proj s (fst (finish_unsubs s)) /\ m (fst (finish_unsubs s)) = m s.
+Proof. destruct (finish_frame s) as ([] & B & C & D & E & F). split; auto. constructor; auto. Qed.
+
+Lemma settle_zero s : dying s = None -> queue s = [] -> waiting s = [] ->
+  Proj s (fst (settle s)) /\ m (fst (settle s)) = m s.
+Proof.
+  intros DY Q W. unfold settle, try_kill. rewrite DY, Q, W. cbn [length Nat.add]. rewrite drain_stop; auto.
+  rewrite DY. pose proof (Proj_finish s). destruct (finish_unsubs s). auto.
+Qed.
+
+Lemma settle_one s1 msg s2 o :
+  dead s1 = false -> dying s1 = None -> busy s1 = false -> queue s1 = [msg] -> waiting s1 = [] ->
+  handle_front (upd_queue s1 [] []) msg = (s2, o) -> dying s2 = None ->
+  Proj s2 (fst (settle s1)) /\ m (fst (settle s1)) = m s2.
+Proof.
+  intros D DY B Q W HF DY2. unfold settle, try_kill. rewrite DY, Q, W. cbn [length Nat.add].
+  rewrite (drain_step 1 s1 msg []); auto. rewrite HF.
+  destruct (handle_front_q (upd_queue s1 [] []) msg) as (Q2 & W2). rewrite HF in Q2, W2. cbn [fst] in Q2, W2. st_simpl.
+  rewrite drain_stop; auto. rewrite DY2.
+  pose proof (Proj_finish s2). destruct (finish_unsubs s2). auto.
+Qed.
+
+Lemma wire_quiet s raw : sendfail s = false -> gated s = false -> wire s raw = (s, [OWire raw]).
+Proof. intros F G. unfold wire. rewrite F, G. reflexivity. Qed.
+
+Lemma enqueue_quiet s0 msg tag : queue s0 = [] -> waiting s0 = [] -> (1 <= qcap s0)%nat ->
+  enqueue_tagged s0 msg tag =
+  match tag with Some w => upd_unsubw (upd_queue s0 [msg] []) (mark_admitted w (unsubw s0)) | None => upd_queue s0 [msg] [] end.
+Proof.
+  intros Q W C. unfold enqueue_tagged. rewrite Q, W. cbn [length app].
+  destruct (qcap s0); [lia|]. cbn [Nat.ltb Nat.leb andb]. destruct tag; reflexivity.
+Qed.
+
+Lemma fresh_key s n : Inv s -> next_id s <= n -> ~ In (mk_id s n) (map fst (requests (m s))).
+Proof.
+  intros I L H. destruct (inv_core _ I) as (C & _ & _).
+  assert (X : idlt (id_str s) (next_id s) (mk_id s n)) by (apply (ic_lt_ids _ _ _ _ _ C); apply in_app_iff; auto).
+  eapply idlt_ge_False; [exact X|]. exists n. split; auto.
+Qed.
+
+Lemma fresh_range s lo hi : Inv s -> next_id s <= lo -> lo < hi -> ~ In (lo, hi) (map fst (batches (m s))).
+Proof.
+  intros I L L2 H. destruct (inv_core _ I) as (C & _ & _).
+  assert (X : In (lo, hi) (rngs_of (batches (m s)) (qmsgs s))) by (apply in_app_iff; auto).
+  apply (ic_rng_ok _ _ _ _ _ C) in X. cbn in X. lia.
+Qed.
+
+Lemma mk_id_neq s n n' : n <> n' -> mk_id s n <> mk_id s n'.
+Proof. intros H E. rewrite !mk_id_mkid in E. apply mkid_inj in E. contradiction. Qed.
+
+(* the shape of a state after one step from a quiet state *)
+Definition After (s s' : st) (R : list (id * kind)) (S : list (subid * id)) (B : list ((N * N) * handle))
+                 (NH : list (bytes * handle)) (nx : N) (sk : list (handle * (subid + bytes))) : Prop :=
+  quiet s' /\ same_env s s' /\ requests (m s') = R /\ subs (m s') = S /\ batches (m s') = B /\ nhandlers (m s') = NH /\
+  next_id s' = nx /\ subkind s' = sk.
+
+(* s2: the state after the read task / the send task has handled the event; s': after settle *)
+Lemma After_proj s s2 s' M' nx sk :
+  Proj s2 s' /\ m s' = m s2 -> m s2 = M' -> Proj (upd_subkind (upd_next s nx) sk) s2 -> quiet s ->
+  After s s' (requests M') (subs M') (batches M') (nhandlers M') nx sk.
+Proof.
+  intros ([] & M1) M2 [] (q1 & q2 & q3 & q4 & q5 & q6 & q7 & q8). st_simpl.
+  unfold After, quiet, same_env. rewrite M1, M2. repeat split; congruence.
+Qed.
+
+Ltac proj_tac := constructor; st_simpl; try reflexivity; try congruence.
+
+(* ---------- one event from a quiet state ---------- *)
+Lemma step_call s h me p : Inv s -> quiet s ->
+  After s (fst (fst (step s (FCall h me p))))
+        ((mk_id s (next_id s), KCall (Some h)) :: requests (m s)) (subs (m s)) (batches (m s)) (nhandlers (m s))
+        (next_id s + 1) (subkind s).
+Proof.
+  intros I QT. pose proof QT as (D & DY & G & B & F & Q & W & C). unfold step, apply. rewrite D.
+  unfold enqueue. rewrite enqueue_quiet; auto.
+  set (i := mk_id s (next_id s)). set (raw := ser_request _). set (s1 := upd_queue _ _ _).
+  assert (HF : handle_front (upd_queue s1 [] []) (MRequest i (Some h) raw)
+               = (upd_m (upd_queue s1 [] []) (set_requests (m s) ((i, KCall (Some h)) :: requests (m s))), [OWire raw])).
+  { unfold s1. cbn [handle_front]. st_simpl.
+    assert (A : ahas id_eqb i (requests (m s)) = false).
+    { apply (ahas_false id_eqb id_eqb_ok). apply fresh_key; auto. lia. }
+    rewrite A. apply wire_quiet; auto. }
+  pose proof (settle_one s1 _ _ _ D DY B eq_refl eq_refl HF DY) as ST.
+  destruct (settle s1) as [s' o']. cbn [fst] in *.
+  exact (After_proj s _ s' _ _ _ ST eq_refl ltac:(unfold s1; proj_tac) QT).
+Qed.
+
+Lemma step_subscribe s h sm um p : Inv s -> quiet s -> bytes_eqb sm um = false ->
+  After s (fst (fst (step s (FSubscribe h sm um p))))
+        ((mk_id s (next_id s + 1), KCall None) :: (mk_id s (next_id s), KPendSub (mk_id s (next_id s + 1)) h um) :: requests (m s))
+        (subs (m s)) (batches (m s)) (nhandlers (m s)) (next_id s + 2) (subkind s).
+Proof.
+  intros I QT NE. pose proof QT as (D & DY & G & B & F & Q & W & C). unfold step, apply. rewrite D, NE.
+  unfold enqueue. rewrite enqueue_quiet; auto.
+  set (si := mk_id s (next_id s)). set (ui := mk_id s (next_id s + 1)). set (raw := ser_request _). set (s1 := upd_queue _ _ _).
+  assert (HF : handle_front (upd_queue s1 [] []) (MSubscribe si ui um h raw)
+               = (upd_m (upd_queue s1 [] []) (set_requests (m s) ((ui, KCall None) :: (si, KPendSub ui h um) :: requests (m s))), [OWire raw])).
+  { unfold s1. cbn [handle_front]. st_simpl.
+    assert (A1 : ahas id_eqb si (requests (m s)) = false).
+    { apply (ahas_false id_eqb id_eqb_ok). apply fresh_key; auto. lia. }
+    assert (A2 : ahas id_eqb ui (requests (m s)) = false).
+    { apply (ahas_false id_eqb id_eqb_ok). apply fresh_key; auto. lia. }
+    assert (A3 : id_eqb si ui = false).
+    { apply (eqb_neq id_eqb id_eqb_ok). apply mk_id_neq. lia. }
+    rewrite A1, A2, A3. cbn [negb andb]. apply wire_quiet; auto. }
+  pose proof (settle_one s1 _ _ _ D DY B eq_refl eq_refl HF DY) as ST.
+  destruct (settle s1) as [s' o']. cbn [fst] in *.
+  exact (After_proj s _ s' _ _ _ ST eq_refl ltac:(unfold s1; proj_tac) QT).
+Qed.
+
+Lemma step_batch s h es : Inv s -> quiet s -> es <> [] ->
+  After s (fst (fst (step s (FBatch h es))))
+        (requests (m s)) (subs (m s)) (((next_id s, next_id s + N.of_nat (length es)), h) :: batches (m s)) (nhandlers (m s))
+        (next_id s + N.of_nat (length es)) (subkind s).
+Proof.
+  intros I QT NE. pose proof QT as (D & DY & G & B & F & Q & W & C). unfold step, apply. rewrite D.
+  destruct es as [|e0 es]; [congruence|]. set (es' := e0 :: es) in *.
+  unfold enqueue. rewrite enqueue_quiet; auto.
+  set (lo := next_id s). set (hi := lo + N.of_nat (length es')). set (raw := batch_raw _ _ _). set (s1 := upd_queue _ _ _).
+  assert (HF : handle_front (upd_queue s1 [] []) (MBatch lo hi h raw)
+               = (upd_m (upd_queue s1 [] []) (set_batches (m s) (((lo, hi), h) :: batches (m s))), [OWire raw])).
+  { unfold s1. cbn [handle_front]. st_simpl.
+    assert (A : ahas range_eqb (lo, hi) (batches (m s)) = false).
+    { apply (ahas_false range_eqb range_eqb_ok). apply fresh_range; auto; unfold lo, hi, es'; cbn [length]; lia. }
+    rewrite A. apply wire_quiet; auto. }
+  pose proof (settle_one s1 _ _ _ D DY B eq_refl eq_refl HF DY) as ST.
+  destruct (settle s1) as [s' o']. cbn [fst] in *.
+  exact (After_proj s _ s' _ _ _ ST eq_refl ltac:(unfold s1; proj_tac) QT).
+Qed.
+
+Lemma step_submethod s h me : Inv s -> quiet s -> ~ In me (map fst (nhandlers (m s))) -> alive s h = true ->
+  After s (fst (fst (step s (FSubMethod h me))))
+        (requests (m s)) (subs (m s)) (batches (m s)) ((me, h) :: nhandlers (m s)) (next_id s) ((h, inr me) :: subkind s).
+Proof.
+  intros I QT NI AL. pose proof QT as (D & DY & G & B & F & Q & W & C). unfold step, apply. rewrite D.
+  unfold enqueue. rewrite enqueue_quiet; auto. set (s1 := upd_queue _ _ _).
+  apply (ahas_false bytes_eqb bytes_eqb_eq) in NI.
+  assert (HF : exists s2 o, handle_front (upd_queue s1 [] []) (MRegister me h) = (s2, o) /\
+                 m s2 = set_nhandlers (m s) ((me, h) :: nhandlers (m s)) /\
+                 Proj (upd_subkind (upd_next s (next_id s)) ((h, inr me) :: subkind s)) s2).
+  { unfold s1. cbn [handle_front]. st_simpl. rewrite NI. unfold alive in *. st_simpl. rewrite AL.
+    eexists _, _. split; [reflexivity|]. split; [reflexivity|]. proj_tac. }
+  destruct HF as (s2 & o & HF & M2 & P2).
+  assert (DY2 : dying s2 = None) by (destruct P2; st_simpl; congruence).
+  pose proof (settle_one s1 _ _ _ D DY B eq_refl eq_refl HF DY2) as ST.
+  destruct (settle s1) as [s' o']. cbn [fst] in *.
+  exact (After_proj s _ s' _ _ _ ST M2 P2 QT).
+Qed.
+
+Lemma step_back s raw s1 o : quiet s -> handle_back s (classify_frame raw) = ROk s1 o ->
+  queue s1 = [] -> waiting s1 = [] -> dying s1 = None ->
+  Proj s1 (fst (fst (step s (Back raw)))) /\ m (fst (fst (step s (Back raw)))) = m s1.
+Proof.
+  intros (D & DY & _) H Q W DY1. unfold step, apply. rewrite D, DY, H.
+  pose proof (settle_zero s1 DY1 Q W) as ST. destruct (settle s1). exact ST.
+Qed.
+
+Lemma step_back_after s raw s1 o M' sk : quiet s -> handle_back s (classify_frame raw) = ROk s1 o ->
+  m s1 = M' -> Proj (upd_subkind (upd_next s (next_id s)) sk) s1 ->
+  After s (fst (fst (step s (Back raw)))) (requests M') (subs M') (batches M') (nhandlers M') (next_id s) sk.
+Proof.
+  intros QT H M1 P1. pose proof QT as (D & DY & G & B & F & Q & W & C).
+  assert (X : queue s1 = [] /\ waiting s1 = [] /\ dying s1 = None) by (destruct P1; st_simpl; repeat split; congruence).
+  destruct X as (Q1 & W1 & DY1).
+  exact (After_proj s s1 _ _ _ _ (step_back s raw s1 o QT H Q1 W1 DY1) M1 P1 QT).
+Qed.
+
+(* a plain answer (to a call, or to a waiter-less entry) *)
+Lemma step_resp_call s raw r w : quiet s -> classify_frame raw = FSingle (IResp r) ->
+  req_lookup (rs_id r) (m s) = Some (KCall w) ->
+  After s (fst (fst (step s (Back raw))))
+        (aremove id_eqb (rs_id r) (requests (m s))) (subs (m s)) (batches (m s)) (nhandlers (m s)) (next_id s) (subkind s).
+Proof.
+  intros QT CF L.
+  eapply (step_back_after s raw _ _ (set_requests (m s) (aremove id_eqb (rs_id r) (requests (m s)))) (subkind s) QT).
+  - rewrite CF. cbn [handle_back handle_elem_single]. unfold single_response. rewrite L. reflexivity.
+  - reflexivity.
+  - proj_tac.
+Qed.
+
+(* an accepted subscribe answer, caller still there *)
+Lemma step_resp_sub_ok s raw r u w um pl sid : quiet s -> classify_frame raw = FSingle (IResp r) ->
+  req_lookup (rs_id r) (m s) = Some (KPendSub u w um) -> rs_payload r = PResult pl -> parse_subid pl = Some sid ->
+  ~ In sid (map fst (subs (m s))) -> alive s w = true ->
+  After s (fst (fst (step s (Back raw))))
+        ((rs_id r, KSub u w um) :: aremove id_eqb (rs_id r) (requests (m s))) ((sid, rs_id r) :: subs (m s))
+        (batches (m s)) (nhandlers (m s)) (next_id s) ((w, inl sid) :: subkind s).
+Proof.
+  intros QT CF L PL PS NI AL. apply (ahas_false subid_eqb subid_eqb_ok) in NI.
+  eapply (step_back_after s raw _ _
+            (set_subs (set_requests (set_requests (m s) (aremove id_eqb (rs_id r) (requests (m s))))
+                                    ((rs_id r, KSub u w um) :: aremove id_eqb (rs_id r) (requests (m s))))
+                      ((sid, rs_id r) :: subs (m s))) ((w, inl sid) :: subkind s) QT).
+  - rewrite CF. cbn [handle_back handle_elem_single]. unfold single_response. rewrite L, PL, PS.
+    cbn [subs set_requests requests]. rewrite NI, AL. reflexivity.
+  - reflexivity.
+  - proj_tac.
+Qed.
+
+(* a refused subscribe answer *)
+Lemma step_resp_sub_err s raw r u w um e : quiet s -> classify_frame raw = FSingle (IResp r) ->
+  req_lookup (rs_id r) (m s) = Some (KPendSub u w um) -> rs_payload r = PError e ->
+  let M' := release_reserved u (set_requests (m s) (aremove id_eqb (rs_id r) (requests (m s)))) in
+  After s (fst (fst (step s (Back raw)))) (requests M') (subs M') (batches M') (nhandlers M') (next_id s) (subkind s).
+Proof.
+  intros QT CF L PL M'.
+  eapply (step_back_after s raw _ _ M' (subkind s) QT).
+  - rewrite CF. cbn [handle_back handle_elem_single]. unfold single_response. rewrite L, PL. reflexivity.
+  - reflexivity.
+  - proj_tac.
+Qed.
+
+(* the acknowledgement of an unsubscribe call *)
+Lemma step_resp_unsubp s raw r sub : quiet s -> classify_frame raw = FSingle (IResp r) ->
+  req_lookup (rs_id r) (m s) = Some (KUnsubP sub) ->
+  let r1 := aremove id_eqb (rs_id r) (requests (m s)) in
+  let r2 := match alookup id_eqb sub r1 with Some (KCall None) => aremove id_eqb sub r1 | _ => r1 end in
+  After s (fst (fst (step s (Back raw)))) r2 (subs (m s)) (batches (m s)) (nhandlers (m s)) (next_id s) (subkind s).
+Proof.
+  intros QT CF L r1 r2.
+  eapply (step_back_after s raw _ _ (set_requests (m s) r2) (subkind s) QT).
+  - rewrite CF. cbn [handle_back handle_elem_single]. unfold single_response. rewrite L. reflexivity.
+  - reflexivity.
+  - proj_tac.
+Qed.
+
+(* the server closes a subscription *)
+Lemma step_sub_close s raw me sid pl rid u ch um : quiet s -> classify_frame raw = FSingle (ISubErr me sid pl) ->
+  alookup subid_eqb sid (subs (m s)) = Some rid -> req_lookup rid (m s) = Some (KSub u ch um) ->
+  let M' := release_reserved u (set_subs (set_requests (m s) (aremove id_eqb rid (requests (m s)))) (aremove subid_eqb sid (subs (m s)))) in
+  After s (fst (fst (step s (Back raw)))) (requests M') (subs M') (batches M') (nhandlers M') (next_id s) (subkind s).
+Proof.
+  intros QT CF L1 L2 M'.
+  assert (H : exists s1, handle_back s (classify_frame raw) = ROk s1 [] /\ m s1 = M' /\
+                Proj (upd_subkind (upd_next s (next_id s)) (subkind s)) s1).
+  { rewrite CF. cbn [handle_back handle_elem_single]. unfold sub_close. rewrite L1, L2. eexists. split; [reflexivity|].
+    split.
+    - destruct (drop_sink_same (upd_m s M') ch). auto.
+    - eapply Proj_trans; [|apply Proj_drop_sink]. proj_tac. }
+  destruct H as (s1 & H & M1 & P1). eapply step_back_after; eauto.
+Qed.
+
+(* the application unsubscribes from a subscription *)
+Lemma do_unsub_result sx sid rid u ch um :
+  alookup subid_eqb sid (subs (m sx)) = Some rid -> req_lookup rid (m sx) = Some (KSub u ch um) ->
+  sendfail sx = false -> gated sx = false ->
+  exists s2 o, do_unsubscribe sx sid = (s2, o) /\
+    m s2 = set_subs (set_requests (m sx) (aset id_eqb u (KUnsubP rid) (aset id_eqb rid (KCall None) (requests (m sx)))))
+                    (aremove subid_eqb sid (subs (m sx))) /\
+    Proj sx s2.
+Proof.
+  intros L1 L2 F G. unfold do_unsubscribe. rewrite L1, L2.
+  set (m1 := set_subs _ _). set (s1 := drop_sink (upd_m sx m1) ch).
+  pose proof (Proj_drop_sink (upd_m sx m1) ch) as PD. pose proof (drop_sink_same (upd_m sx m1) ch) as SD. fold s1 in PD, SD.
+  assert (F1 : sendfail (upd_unacked s1 (u :: unacked s1)) = false) by (destruct PD; st_simpl; congruence).
+  assert (G1 : gated (upd_unacked s1 (u :: unacked s1)) = false) by (destruct PD; st_simpl; congruence).
+  rewrite (wire_quiet _ _ F1 G1). eexists _, _. split; [reflexivity|]. split.
+  - destruct SD. st_simpl. auto.
+  - destruct PD. proj_tac.
+Qed.
+
+Lemma step_unsub s h2 sh sid rid u ch um : quiet s ->
+  alookup N.eqb sh (subkind s) = Some (inl sid) ->
+  alookup subid_eqb sid (subs (m s)) = Some rid -> req_lookup rid (m s) = Some (KSub u ch um) ->
+  After s (fst (fst (step s (FUnsub h2 sh))))
+        (aset id_eqb u (KUnsubP rid) (aset id_eqb rid (KCall None) (requests (m s)))) (aremove subid_eqb sid (subs (m s)))
+        (batches (m s)) (nhandlers (m s)) (next_id s) (aremove N.eqb sh (subkind s)).
+Proof.
+  intros QT K L1 L2. pose proof QT as (D & DY & G & B & F & Q & W & C). unfold step, apply. rewrite D.
+  unfold close_msg_of. rewrite K. rewrite enqueue_quiet; auto. set (s1 := upd_unsubw _ _).
+  destruct (do_unsub_result (upd_queue s1 [] []) sid rid u ch um L1 L2 F G) as (s2 & o & HF & M2 & P2).
+  assert (P3 : Proj (upd_subkind (upd_next s (next_id s)) (aremove N.eqb sh (subkind s))) s2).
+  { eapply Proj_trans; [|exact P2]. unfold s1. proj_tac. }
+  assert (DY2 : dying s2 = None) by (destruct P3; st_simpl; congruence).
+  pose proof (settle_one s1 (MSubClosed sid) s2 o D DY B eq_refl eq_refl HF DY2) as ST.
+  destruct (settle s1) as [s' o']. cbn [fst] in *.
+  exact (After_proj s _ s' _ _ _ ST M2 P3 QT).
+Qed.
+
+(* the application unsubscribes from a notification method *)
+Lemma step_unsub_method s h2 sh me ch : quiet s ->
+  alookup N.eqb sh (subkind s) = Some (inr me) -> alookup bytes_eqb me (nhandlers (m s)) = Some ch ->
+  After s (fst (fst (step s (FUnsub h2 sh))))
+        (requests (m s)) (subs (m s)) (batches (m s)) (aremove bytes_eqb me (nhandlers (m s))) (next_id s) (aremove N.eqb sh (subkind s)).
+Proof.
+  intros QT K L1. pose proof QT as (D & DY & G & B & F & Q & W & C). unfold step, apply. rewrite D.
+  unfold close_msg_of. rewrite K. rewrite enqueue_quiet; auto. set (s1 := upd_unsubw _ _).
+  set (M' := set_nhandlers (m s) (aremove bytes_eqb me (nhandlers (m s)))).
+  assert (HF : exists s2 o, handle_front (upd_queue s1 [] []) (MUnregister me) = (s2, o) /\ m s2 = M' /\
+                 Proj (upd_subkind (upd_next s (next_id s)) (aremove N.eqb sh (subkind s))) s2).
+  { unfold s1. cbn [handle_front]. st_simpl. rewrite L1. eexists _, _. split; [reflexivity|]. cbn [fst].
+    match goal with |- context [drop_sink ?a ?b] => pose proof (Proj_drop_sink a b) as PD; pose proof (drop_sink_same a b) as SD end.
+    destruct SD. split; [st_simpl; auto|]. destruct PD. proj_tac. }
+  destruct HF as (s2 & o & HF & M2 & P2).
+  assert (DY2 : dying s2 = None) by (destruct P2; st_simpl; congruence).
+  pose proof (settle_one s1 _ _ _ D DY B eq_refl eq_refl HF DY2) as ST.
+  destruct (settle s1) as [s' o']. cbn [fst] in *.
+  exact (After_proj s _ s' _ _ _ ST M2 P2 QT).
+Qed.
+
+(* a complete array reply *)
+Definition span_step (rng : option (N * N)) (n : N) : option (N * N) :=
+  Some match rng with
+       | None => (n, n)
+       | Some (lo, hi) => (if n <? lo then n else lo, if hi <? n then n else hi)
+       end.
+Definition span (rng : option (N * N)) (ns : list N) : option (N * N) := fold_left span_step ns rng.
+
+Lemma array_loop_resps s rs : forall ns acc rng got, map (fun r => id_as_number (rs_id r)) rs = map Some ns ->
+  array_loop s (map IResp rs) acc rng got = inl (s, acc ++ rs, span rng ns, got).
+Proof.
+  induction rs as [|r rs IH]; intros ns acc rng got E.
+  - destruct ns; [|discriminate]. cbn. rewrite app_nil_r. reflexivity.
+  - destruct ns as [|n ns]; [discriminate|]. cbn [map] in E. inversion E as [[E1 E2]].
+    cbn [map array_loop]. rewrite E1. rewrite (IH ns); auto. rewrite <- app_assoc. reflexivity.
+Qed.
+
+Lemma span_some ns : forall a0 b0, a0 <= b0 -> exists a b, span (Some (a0, b0)) ns = Some (a, b) /\
+  a <= a0 /\ b0 <= b /\ (a = a0 \/ In a ns) /\ (b = b0 \/ In b ns) /\ forall n, In n ns -> a <= n <= b.
+Proof.
+  induction ns as [|n ns IH]; intros a0 b0 L.
+  - exists a0, b0. cbn. repeat split; auto; try lia; try contradiction.
+  - cbn [span fold_left span_step].
+    set (a1 := if n <? a0 then n else a0). set (b1 := if b0 <? n then n else b0).
+    assert (X : a1 <= a0 /\ a1 <= n /\ b0 <= b1 /\ n <= b1 /\ (a1 = a0 \/ a1 = n) /\ (b1 = b0 \/ b1 = n)).
+    { unfold a1, b1. destruct (N.ltb_spec n a0), (N.ltb_spec b0 n); repeat split; auto; lia. }
+    destruct X as (x1 & x2 & x3 & x4 & x5 & x6).
+    destruct (IH a1 b1) as (a & b & E & y1 & y2 & y3 & y4 & y5); [lia|].
+    exists a, b. split; [exact E|]. repeat split; try lia.
+    + destruct y3 as [-> | y3]; [destruct x5 as [-> | ->]; auto; right; left; auto | right; right; auto].
+    + destruct y4 as [-> | y4]; [destruct x6 as [-> | ->]; auto; right; left; auto | right; right; auto].
+    + destruct H as [<- | H]; [lia | apply y5; auto].
+    + destruct H as [<- | H]; [lia | apply y5; auto].
+Qed.
+
+Lemma span_cover ns lo hi : (forall n, In n ns -> lo <= n < hi) -> In lo ns -> In (hi - 1) ns -> span None ns = Some (lo, hi - 1).
+Proof.
+  intros A L H. destruct ns as [|n ns]; [contradiction|].
+  destruct (span_some ns n n) as (a & b & E & y1 & y2 & y3 & y4 & y5); [lia|].
+  unfold span in *. cbn [fold_left]. change (span_step None n) with (Some (n, n)). rewrite E.
+  assert (Ha : In a (n :: ns)) by (destruct y3 as [-> | y3]; [left | right]; auto).
+  assert (Hb : In b (n :: ns)) by (destruct y4 as [-> | y4]; [left | right]; auto).
+  assert (Ra : forall k, In k (n :: ns) -> a <= k <= b).
+  { intros k [<- | Hk]; [lia | apply y5; auto]. }
+  apply A in Ha. apply A in Hb. apply Ra in L. apply Ra in H. f_equal. f_equal; lia.
+Qed.
+
+Lemma step_batch_reply s raw rs ns lo hi h : quiet s -> classify_frame raw = FArray (map IResp rs) ->
+  map (fun r => id_as_number (rs_id r)) rs = map Some ns ->
+  (forall n, In n ns -> lo <= n < hi) -> In lo ns -> In (hi - 1) ns -> hi - 1 <> u64_max ->
+  alookup range_eqb (lo, hi) (batches (m s)) = Some h ->
+  After s (fst (fst (step s (Back raw))))
+        (requests (m s)) (subs (m s)) (aremove range_eqb (lo, hi) (batches (m s))) (nhandlers (m s)) (next_id s) (subkind s).
+Proof.
+  intros QT CF E A L H U LK.
+  assert (LH : lo < hi) by (apply A in L; lia).
+  eapply (step_back_after s raw _ _ (set_batches (m s) (aremove range_eqb (lo, hi) (batches (m s)))) (subkind s) QT).
+  - rewrite CF. cbn [handle_back]. rewrite (array_loop_resps s rs ns [] None false E).
+    rewrite (span_cover ns lo hi A L H). apply N.eqb_neq in U. rewrite U.
+    replace (hi - 1 + 1) with hi by lia. unfold batch_response. rewrite LK. reflexivity.
+  - reflexivity.
+  - proj_tac.
+Qed.
+
+(* ---------- the cycles ---------- *)
+Definition Closed (s s' : st) : Prop :=
+  Inv s' /\ quiet s' /\ same_env s s' /\
+  requests (m s') = requests (m s) /\ subs (m s') = subs (m s) /\ batches (m s') = batches (m s) /\ nhandlers (m s') = nhandlers (m s).
+
+Lemma Closed_refl s : Inv s -> quiet s -> Closed s s.
+Proof. intros I Q. split; auto. split; auto. split; [apply same_env_refl|]. repeat split. Qed.
+
+Lemma Closed_trans s1 s2 s3 : Closed s1 s2 -> Closed s2 s3 -> Closed s1 s3.
+Proof.
+  intros (a1 & a2 & a3 & a4 & a5 & a6 & a7) (b1 & b2 & b3 & b4 & b5 & b6 & b7).
+  split; auto. split; auto. split; [eapply same_env_trans; eauto|]. repeat split; congruence.
+Qed.
+
+Lemma Closed_sizes s s' : Closed s s' -> table_sizes s' = table_sizes s.
+Proof. intros (_ & _ & _ & a & b & c & d). unfold table_sizes. rewrite a, b, c, d. reflexivity. Qed.
+
+Lemma run_fst_cons s e es : fst (run s (e :: es)) = fst (run (fst (fst (step s e))) es).
+Proof. rewrite run_cons. reflexivity. Qed.
+
+Lemma mk_id_env s s' n : same_env s s' -> mk_id s' n = mk_id s n.
+Proof. intros (E & _). rewrite !mk_id_mkid. congruence. Qed.
+
+Lemma alive_env s s' h : same_env s s' -> alive s' h = alive s h.
+Proof. intros (_ & E & _). unfold alive. congruence. Qed.
+
+Inductive cycle (s : st) : list ev -> Prop :=
+| cy_call h me p raw r :
+    classify_frame raw = FSingle (IResp r) -> rs_id r = mk_id s (next_id s) ->
+    cycle s [FCall h me p; Back raw]
+| cy_sub_unsub h sm um p raw1 r1 pl sid h2 raw2 r2 :
+    bytes_eqb sm um = false -> alive s h = true ->
+    classify_frame raw1 = FSingle (IResp r1) -> rs_id r1 = mk_id s (next_id s) ->
+    rs_payload r1 = PResult pl -> parse_subid pl = Some sid -> ~ In sid (map fst (subs (m s))) ->
+    classify_frame raw2 = FSingle (IResp r2) -> rs_id r2 = mk_id s (next_id s + 1) ->
+    cycle s [FSubscribe h sm um p; Back raw1; FUnsub h2 h; Back raw2]
+| cy_sub_refused h sm um p raw r e :
+    bytes_eqb sm um = false ->
+    classify_frame raw = FSingle (IResp r) -> rs_id r = mk_id s (next_id s) -> rs_payload r = PError e ->
+    cycle s [FSubscribe h sm um p; Back raw]
+| cy_sub_closed h sm um p raw1 r1 pl sid raw2 me pl2 :
+    bytes_eqb sm um = false -> alive s h = true ->
+    classify_frame raw1 = FSingle (IResp r1) -> rs_id r1 = mk_id s (next_id s) ->
+    rs_payload r1 = PResult pl -> parse_subid pl = Some sid -> ~ In sid (map fst (subs (m s))) ->
+    classify_frame raw2 = FSingle (ISubErr me sid pl2) ->
+    cycle s [FSubscribe h sm um p; Back raw1; Back raw2]
+| cy_batch h es raw rs ns :
+    es <> [] -> classify_frame raw = FArray (map IResp rs) ->
+    map (fun r => id_as_number (rs_id r)) rs = map Some ns ->
+    (forall n, In n ns -> next_id s <= n < next_id s + N.of_nat (length es)) ->
+    In (next_id s) ns -> In (next_id s + N.of_nat (length es) - 1) ns ->
+    next_id s + N.of_nat (length es) - 1 <> u64_max ->
+    cycle s [FBatch h es; Back raw]
+| cy_method h me h2 :
+    ~ In me (map fst (nhandlers (m s))) -> alive s h = true ->
+    cycle s [FSubMethod h me; FUnsub h2 h].
+
+Ltac after H := destruct H as (?Q & ?EV & ?HR & ?HS & ?HB & ?HN & ?HX & ?HK).
+
+Theorem cycle_returns s es : Inv s -> quiet s -> cycle s es -> Closed s (fst (run s es)).
+Proof.
+  intros I QT CY. destruct CY.
+  - (* call, answer *)
+    rewrite !run_fst_cons. cbn [run fst].
+    pose proof (step_inv s (FCall h me p) I) as I1. pose proof (step_call s h me p I QT) as A1.
+    set (s1 := fst (fst (step s (FCall h me p)))) in *. after A1.
+    pose proof (step_inv s1 (Back raw) I1) as I2.
+    assert (L : req_lookup (rs_id r) (m s1) = Some (KCall (Some h))).
+    { unfold req_lookup. rewrite HR, H0. cbn [alookup]. rewrite (eqb_rfl id_eqb id_eqb_ok). reflexivity. }
+    pose proof (step_resp_call s1 raw r _ Q H L) as A2. set (s2 := fst (fst (step s1 (Back raw)))) in *. after A2.
+    split; auto. split; auto. split; [eapply same_env_trans; eauto|].
+    rewrite HR0, HS0, HB0, HN0, HR, HS, HB, HN, H0. cbn [aremove]. rewrite (eqb_rfl id_eqb id_eqb_ok).
+    rewrite (aremove_notin id_eqb id_eqb_ok); auto. apply fresh_key; auto. lia.
+  - (* subscribe, accept, unsubscribe, acknowledge *)
+    rewrite !run_fst_cons. cbn [run fst].
+    set (si := mk_id s (next_id s)) in *. set (ui := mk_id s (next_id s + 1)) in *.
+    assert (Fs : ~ In si (map fst (requests (m s)))) by (apply fresh_key; auto; lia).
+    assert (Fu : ~ In ui (map fst (requests (m s)))) by (apply fresh_key; auto; lia).
+    assert (Dsu : si <> ui) by (apply mk_id_neq; lia).
+    assert (Ess : id_eqb si si = true) by apply (eqb_rfl id_eqb id_eqb_ok).
+    assert (Euu : id_eqb ui ui = true) by apply (eqb_rfl id_eqb id_eqb_ok).
+    assert (Esu : id_eqb si ui = false) by (apply (eqb_neq id_eqb id_eqb_ok); auto).
+    assert (Eus : id_eqb ui si = false) by (apply (eqb_neq id_eqb id_eqb_ok); auto).
+    assert (Rs : aremove id_eqb si (requests (m s)) = requests (m s)) by (apply (aremove_notin id_eqb id_eqb_ok); auto).
+    assert (Ru : aremove id_eqb ui (requests (m s)) = requests (m s)) by (apply (aremove_notin id_eqb id_eqb_ok); auto).
+    pose proof (step_inv s (FSubscribe h sm um p) I) as I1. pose proof (step_subscribe s h sm um p I QT H) as A1.
+    set (s1 := fst (fst (step s (FSubscribe h sm um p)))) in *. fold si ui in A1. after A1.
+    pose proof (step_inv s1 (Back raw1) I1) as I2.
+    assert (L1 : req_lookup (rs_id r1) (m s1) = Some (KPendSub ui h um)).
+    { unfold req_lookup. rewrite HR, H2. cbn [alookup]. rewrite Esu, Ess. reflexivity. }
+    assert (NS1 : ~ In sid (map fst (subs (m s1)))) by (rewrite HS; auto).
+    assert (AL1 : alive s1 h = true) by (rewrite (alive_env s s1); auto).
+    pose proof (step_resp_sub_ok s1 raw1 r1 _ _ _ _ _ Q H1 L1 H3 H4 NS1 AL1) as A2.
+    set (s2 := fst (fst (step s1 (Back raw1)))) in *. after A2.
+    rewrite HR, H2 in HR0. cbn [aremove] in HR0. rewrite Esu, Ess, Rs in HR0.
+    pose proof (step_inv s2 (FUnsub h2 h) I2) as I3.
+    assert (K2 : alookup N.eqb h (subkind s2) = Some (inl sid)).
+    { rewrite HK0. cbn [alookup]. rewrite N.eqb_refl. reflexivity. }
+    assert (L2a : alookup subid_eqb sid (subs (m s2)) = Some si).
+    { rewrite HS0, H2. cbn [alookup]. rewrite (eqb_rfl subid_eqb subid_eqb_ok). reflexivity. }
+    assert (L2b : req_lookup si (m s2) = Some (KSub ui h um)).
+    { unfold req_lookup. rewrite HR0. cbn [alookup]. rewrite Ess. reflexivity. }
+    pose proof (step_unsub s2 h2 h sid si ui h um Q0 K2 L2a L2b) as A3.
+    set (s3 := fst (fst (step s2 (FUnsub h2 h)))) in *. after A3.
+    rewrite HR0 in HR1. unfold aset in HR1.
+    repeat (progress (cbn [aremove] in HR1; rewrite ?Ess, ?Esu, ?Eus, ?Euu, ?Rs, ?Ru in HR1)).
+    rewrite HS0, H2 in HS1. cbn [aremove] in HS1. rewrite (eqb_rfl subid_eqb subid_eqb_ok) in HS1.
+    rewrite HS, (aremove_notin subid_eqb subid_eqb_ok) in HS1; auto.
+    pose proof (step_inv s3 (Back raw2) I3) as I4.
+    assert (L3 : req_lookup (rs_id r2) (m s3) = Some (KUnsubP si)).
+    { unfold req_lookup. rewrite HR1, H7. cbn [alookup]. rewrite Euu. reflexivity. }
+    pose proof (step_resp_unsubp s3 raw2 r2 si Q1 H6 L3) as A4. cbv zeta in A4.
+    set (s4 := fst (fst (step s3 (Back raw2)))) in *. after A4.
+    rewrite HR1, H7 in HR2.
+    repeat (progress (cbn [aremove alookup] in HR2; rewrite ?Ess, ?Esu, ?Eus, ?Euu, ?Rs, ?Ru in HR2)).
+    split; auto. split; auto.
+    split; [eapply same_env_trans; [|eauto]; eapply same_env_trans; [|eauto]; eapply same_env_trans; eauto|].
+    repeat split; congruence.
+  - (* subscribe, refused *)
+    rewrite !run_fst_cons. cbn [run fst].
+    set (si := mk_id s (next_id s)) in *. set (ui := mk_id s (next_id s + 1)) in *.
+    assert (Fs : ~ In si (map fst (requests (m s)))) by (apply fresh_key; auto; lia).
+    assert (Fu : ~ In ui (map fst (requests (m s)))) by (apply fresh_key; auto; lia).
+    assert (Dsu : si <> ui) by (apply mk_id_neq; lia).
+    assert (Ess : id_eqb si si = true) by apply (eqb_rfl id_eqb id_eqb_ok).
+    assert (Euu : id_eqb ui ui = true) by apply (eqb_rfl id_eqb id_eqb_ok).
+    assert (Esu : id_eqb si ui = false) by (apply (eqb_neq id_eqb id_eqb_ok); auto).
+    assert (Eus : id_eqb ui si = false) by (apply (eqb_neq id_eqb id_eqb_ok); auto).
+    assert (Rs : aremove id_eqb si (requests (m s)) = requests (m s)) by (apply (aremove_notin id_eqb id_eqb_ok); auto).
+    assert (Ru : aremove id_eqb ui (requests (m s)) = requests (m s)) by (apply (aremove_notin id_eqb id_eqb_ok); auto).
+    pose proof (step_inv s (FSubscribe h sm um p) I) as I1. pose proof (step_subscribe s h sm um p I QT H) as A1.
+    set (s1 := fst (fst (step s (FSubscribe h sm um p)))) in *. fold si ui in A1. after A1.
+    pose proof (step_inv s1 (Back raw) I1) as I2.
+    assert (L1 : req_lookup (rs_id r) (m s1) = Some (KPendSub ui h um)).
+    { unfold req_lookup. rewrite HR, H1. cbn [alookup]. rewrite Esu, Ess. reflexivity. }
+    pose proof (step_resp_sub_err s1 raw r _ _ _ e Q H0 L1 H2) as A2. cbv zeta in A2.
+    set (s2 := fst (fst (step s1 (Back raw)))) in *. after A2.
+    assert (MR : requests (release_reserved ui (set_requests (m s1) (aremove id_eqb (rs_id r) (requests (m s1))))) = requests (m s)).
+    { unfold release_reserved, req_lookup. cbn [requests set_requests]. rewrite HR, H1. cbn [aremove]. rewrite Esu, Ess, Rs.
+      cbn [alookup]. rewrite Euu. cbn [requests set_requests aremove]. rewrite Euu, Ru. reflexivity. }
+    destruct (release_frame ui (set_requests (m s1) (aremove id_eqb (rs_id r) (requests (m s1))))) as (F1 & F2 & F3).
+    rewrite MR in HR0. rewrite F1 in HS0. rewrite F2 in HB0. rewrite F3 in HN0. cbn [subs batches nhandlers set_requests] in *.
+    split; auto. split; auto. split; [eapply same_env_trans; eauto|]. repeat split; congruence.
+  - (* subscribe, accept, closed by the server *)
+    rewrite !run_fst_cons. cbn [run fst].
+    set (si := mk_id s (next_id s)) in *. set (ui := mk_id s (next_id s + 1)) in *.
+    assert (Fs : ~ In si (map fst (requests (m s)))) by (apply fresh_key; auto; lia).
+    assert (Fu : ~ In ui (map fst (requests (m s)))) by (apply fresh_key; auto; lia).
+    assert (Dsu : si <> ui) by (apply mk_id_neq; lia).
+    assert (Ess : id_eqb si si = true) by apply (eqb_rfl id_eqb id_eqb_ok).
+    assert (Euu : id_eqb ui ui = true) by apply (eqb_rfl id_eqb id_eqb_ok).
+    assert (Esu : id_eqb si ui = false) by (apply (eqb_neq id_eqb id_eqb_ok); auto).
+    assert (Eus : id_eqb ui si = false) by (apply (eqb_neq id_eqb id_eqb_ok); auto).
+    assert (Rs : aremove id_eqb si (requests (m s)) = requests (m s)) by (apply (aremove_notin id_eqb id_eqb_ok); auto).
+    assert (Ru : aremove id_eqb ui (requests (m s)) = requests (m s)) by (apply (aremove_notin id_eqb id_eqb_ok); auto).
+    pose proof (step_inv s (FSubscribe h sm um p) I) as I1. pose proof (step_subscribe s h sm um p I QT H) as A1.
+    set (s1 := fst (fst (step s (FSubscribe h sm um p)))) in *. fold si ui in A1. after A1.
+    pose proof (step_inv s1 (Back raw1) I1) as I2.
+    assert (L1 : req_lookup (rs_id r1) (m s1) = Some (KPendSub ui h um)).
+    { unfold req_lookup. rewrite HR, H2. cbn [alookup]. rewrite Esu, Ess. reflexivity. }
+    assert (NS1 : ~ In sid (map fst (subs (m s1)))) by (rewrite HS; auto).
+    assert (AL1 : alive s1 h = true) by (rewrite (alive_env s s1); auto).
+    pose proof (step_resp_sub_ok s1 raw1 r1 _ _ _ _ _ Q H1 L1 H3 H4 NS1 AL1) as A2.
+    set (s2 := fst (fst (step s1 (Back raw1)))) in *. after A2.
+    rewrite HR, H2 in HR0. cbn [aremove] in HR0. rewrite Esu, Ess, Rs in HR0.
+    pose proof (step_inv s2 (Back raw2) I2) as I3.
+    assert (L2a : alookup subid_eqb sid (subs (m s2)) = Some si).
+    { rewrite HS0, H2. cbn [alookup]. rewrite (eqb_rfl subid_eqb subid_eqb_ok). reflexivity. }
+    assert (L2b : req_lookup si (m s2) = Some (KSub ui h um)).
+    { unfold req_lookup. rewrite HR0. cbn [alookup]. rewrite Ess. reflexivity. }
+    pose proof (step_sub_close s2 raw2 me sid pl2 si ui h um Q0 H6 L2a L2b) as A3. cbv zeta in A3.
+    set (s3 := fst (fst (step s2 (Back raw2)))) in *. after A3.
+    set (M1 := set_subs (set_requests (m s2) (aremove id_eqb si (requests (m s2)))) (aremove subid_eqb sid (subs (m s2)))) in *.
+    assert (MR : requests (release_reserved ui M1) = requests (m s)).
+    { unfold release_reserved, req_lookup, M1. cbn [requests set_requests set_subs]. rewrite HR0. cbn [aremove]. rewrite Ess, Esu, Rs.
+      cbn [alookup]. rewrite Euu. cbn [requests set_requests aremove]. rewrite Euu, Ru. reflexivity. }
+    destruct (release_frame ui M1) as (F1 & F2 & F3).
+    rewrite MR in HR1. rewrite F1 in HS1. rewrite F2 in HB1. rewrite F3 in HN1. unfold M1 in *. cbn [subs batches nhandlers set_requests set_subs] in *.
+    rewrite HS0, H2 in HS1. cbn [aremove] in HS1. rewrite (eqb_rfl subid_eqb subid_eqb_ok) in HS1.
+    rewrite HS, (aremove_notin subid_eqb subid_eqb_ok) in HS1; auto.
+    split; auto. split; auto.
+    split; [eapply same_env_trans; [|eauto]; eapply same_env_trans; eauto|]. repeat split; congruence.
+  - (* batch, complete array reply *)
+    rewrite !run_fst_cons. cbn [run fst].
+    pose proof (step_inv s (FBatch h es) I) as I1. pose proof (step_batch s h es I QT H) as A1.
+    set (s1 := fst (fst (step s (FBatch h es)))) in *. after A1.
+    pose proof (step_inv s1 (Back raw) I1) as I2.
+    set (lo := next_id s) in *. set (hi := lo + N.of_nat (length es)) in *.
+    assert (LK : alookup range_eqb (lo, hi) (batches (m s1)) = Some h).
+    { rewrite HB. cbn [alookup]. rewrite (eqb_rfl range_eqb range_eqb_ok). reflexivity. }
+    pose proof (step_batch_reply s1 raw rs ns lo hi h Q H0 H1 H2 H3 H4 H5 LK) as A2.
+    set (s2 := fst (fst (step s1 (Back raw)))) in *. after A2.
+    rewrite HB in HB0. cbn [aremove] in HB0. rewrite (eqb_rfl range_eqb range_eqb_ok) in HB0.
+    rewrite (aremove_notin range_eqb range_eqb_ok) in HB0.
+    2:{ apply fresh_range; auto; unfold lo, hi; [lia|]. destruct es; [congruence|]. cbn [length]. lia. }
+    split; auto. split; auto. split; [eapply same_env_trans; eauto|]. repeat split; congruence.
+  - (* notification method: subscribe, unsubscribe *)
+    rewrite !run_fst_cons. cbn [run fst].
+    pose proof (step_inv s (FSubMethod h me) I) as I1. pose proof (step_submethod s h me I QT H H0) as A1.
+    set (s1 := fst (fst (step s (FSubMethod h me)))) in *. after A1.
+    pose proof (step_inv s1 (FUnsub h2 h) I1) as I2.
+    assert (K : alookup N.eqb h (subkind s1) = Some (inr me)).
+    { rewrite HK. cbn [alookup]. rewrite N.eqb_refl. reflexivity. }
+    assert (LK : alookup bytes_eqb me (nhandlers (m s1)) = Some h).
+    { rewrite HN. cbn [alookup]. rewrite bytes_eqb_refl. reflexivity. }
+    pose proof (step_unsub_method s1 h2 h me h Q K LK) as A2.
+    set (s2 := fst (fst (step s1 (FUnsub h2 h)))) in *. after A2.
+    rewrite HN in HN0. cbn [aremove] in HN0. rewrite bytes_eqb_refl in HN0.
+    rewrite (aremove_notin bytes_eqb bytes_eqb_eq) in HN0; auto.
+    split; auto. split; auto. split; [eapply same_env_trans; eauto|]. repeat split; congruence.
+Qed.
+
+(* any sequence of closed cycles, each taken in the state its predecessors left *)
+Inductive cycles (s : st) : list ev -> Prop :=
+| cs_nil : cycles s []
+| cs_cons es es' : cycle s es -> cycles (fst (run s es)) es' -> cycles s (es ++ es').
+
+Theorem cycles_return s es : Inv s -> quiet s -> cycles s es -> Closed s (fst (run s es)).
+Proof.
+  intros I QT CS. induction CS as [s | s es es' CY CS IH].
+  - apply Closed_refl; auto.
+  - rewrite run_app. pose proof (cycle_returns s es I QT CY) as C1.
+    eapply Closed_trans; [exact C1|]. apply IH; apply C1.
+Qed.
+
+Theorem no_growth s es : Inv s -> quiet s -> cycles s es -> table_sizes (fst (run s es)) = table_sizes s.
+Proof. intros I QT CS. apply Closed_sizes. apply cycles_return; auto. Qed.
+
+Theorem cycle_sizes s es : Inv s -> quiet s -> cycle s es -> table_sizes (fst (run s es)) = table_sizes s.
+Proof. intros I QT CY. apply Closed_sizes. apply cycle_returns; auto. Qed.
+
+Theorem cycle_returns_full s es : Inv s -> quiet s -> cycle s es ->
+  let s' := fst (run s es) in
+  Inv s' /\ quiet s' /\ table_sizes s' = table_sizes s /\
+  requests (m s') = requests (m s) /\ subs (m s') = subs (m s) /\ batches (m s') = batches (m s) /\ nhandlers (m s') = nhandlers (m s).
+Proof.
+  intros I QT CY. cbv zeta. pose proof (cycle_returns s es I QT CY) as C. pose proof (Closed_sizes _ _ C) as T.
+  destruct C as (a & b & c & d & e & f & g). split; [exact a|]. split; [exact b|]. split; [exact T|]. auto.
+Qed.
+
+(* ------------------------------------------------------------------------------------------- *)
+(* Part D: a batches entry disappears only through an array reply or at shutdown; ids on the wire *)
+(* ------------------------------------------------------------------------------------------- *)
+
+Definition Keep (s s' : st) : Prop := (forall x, In x (batches (m s)) -> In x (batches (m s'))) \/ dead s' = true.
+
+Lemma Keep_refl s : Keep s s.
+Proof. left; auto. Qed.
+
+Lemma Keep_m s s' : batches (m s') = batches (m s) -> Keep s s'.
+Proof. intros E. left. rewrite E. auto. Qed.
+
+Lemma Keep_trans s1 s2 s3 : Keep s1 s2 -> (dead s2 = true -> dead s3 = true) -> Keep s2 s3 -> Keep s1 s3.
+Proof.
+  intros [A | A] D [B | B]; try (right; auto; fail). left; auto.
+Qed.
+
+Lemma handle_front_keep s msg : dead s = false ->
+  (forall x, In x (batches (m s)) -> In x (batches (m (fst (handle_front s msg))))).
+Proof.
+  intros _.
+  assert (W : forall s1 raw, m (fst (wire s1 raw)) = m s1) by (intros s1 raw; destruct (wire_same s1 raw); auto).
+  assert (DS : forall s1 c, m (drop_sink s1 c) = m s1) by (intros s1 c; destruct (drop_sink_same s1 c); auto).
+  destruct msg as [lo hi h raw | raw | i w raw | si ui um h raw | me h | me | sid]; cbn [handle_front].
+  - destruct (ahas _ _ _); auto. rewrite W. st_simpl. cbn [batches set_batches]. intros x Hx. right; auto.
+  - rewrite W. auto.
+  - destruct (ahas _ _ _); auto. rewrite W. auto.
+  - destruct (_ && _); auto. rewrite W. auto.
+  - destruct (ahas _ _ _); auto. destruct (alive s h); cbn [fst]; st_simpl; auto.
+  - destruct (alookup _ _ _); auto. cbn [fst]. rewrite DS. auto.
+  - unfold do_unsubscribe. destruct (alookup _ _ _); auto. destruct (req_lookup _ _) as [[w|u w um|u ch um|j]|]; auto.
+    rewrite W. st_simpl. rewrite DS. auto.
+Qed.
+
+Lemma settle_keep s : Keep s (fst (settle s)).
+Proof.
+  apply (settle_lift (fun s' => Keep s s') (fun _ => True)).
+  - intros f s0 J. destruct (admit_waiting_sameq f s0). destruct J as [J | J]; [left; rewrite sq_m; exact J | right; rewrite sq_dead; exact J].
+  - intros s0 msg q J Q D _ _. split; [|apply Forall_forall; auto]. destruct J as [J | J]; [|congruence].
+    left. intros x Hx. apply handle_front_keep; auto.
+  - intros s0 f _ _ _ _. split; [right; reflexivity | apply Forall_forall; auto].
+  - intros s0 J. split; [|apply Forall_forall; auto]. destruct (finish_frame s0) as ([] & _).
+    destruct J as [J | J]; [left; rewrite sc_m; exact J | right; rewrite sc_dead; exact J].
+  - apply Keep_refl.
+Qed.
+
+Lemma single_response_batches s r : batches (m (rres_st (single_response s r))) = batches (m s).
+Proof.
+  unfold single_response. destruct (req_lookup _ _) as [[w|u w um|u ch um|sub]|]; cbn [rres_st]; auto.
+  set (m1 := set_requests _ _).
+  assert (E : batches (m (upd_m s (release_reserved u m1))) = batches (m s)).
+  { st_simpl. destruct (release_frame u m1) as (_ & -> & _). reflexivity. }
+  destruct (rs_payload r); cbn [rres_st]; auto. destruct (parse_subid raw); cbn [rres_st]; auto.
+  destruct (ahas _ _ _); cbn [rres_st]; auto. destruct (alive s w); cbn [rres_st]; auto.
+  unfold forward, enqueue. match goal with |- context [enqueue_tagged ?a ?b ?c] => destruct (enqueue_tagged_sameq a b c) as [E0] end.
+  rewrite E0. reflexivity.
+Qed.
+
+Lemma elem_single_batches s x : batches (m (rres_st (handle_elem_single s x))) = batches (m s).
+Proof.
+  destruct x as [r|me sid p|me sid p|me p|]; cbn [handle_elem_single rres_st]; auto.
+  - apply single_response_batches.
+  - unfold sub_deliver. destruct (alookup _ _ _); auto. destruct (req_lookup _ _) as [[w|u w um|u ch um|j]|]; auto.
+    destruct (chan_of s ch); auto. destruct (chan_send c p) as [c' res].
+    destruct res; auto; unfold forward, enqueue;
+      match goal with |- context [enqueue_tagged ?a ?b ?c] => destruct (enqueue_tagged_sameq a b c) as [E] end; rewrite E; reflexivity.
+  - unfold sub_close. destruct (alookup _ _ _); auto. destruct (req_lookup _ _) as [[w|u w um|u ch um|j]|]; auto.
+    match goal with |- context [drop_sink ?a ?b] => destruct (drop_sink_same a b) as [E] end. rewrite E. st_simpl.
+    match goal with |- context [release_reserved ?a ?b] => destruct (release_frame a b) as (_ & -> & _) end. reflexivity.
+  - unfold notif_deliver. destruct (alookup _ _ _) as [ch|]; auto. destruct (chan_of s ch); auto.
+    destruct (chan_send c _) as [c' res].
+    destruct res; auto; match goal with |- context [drop_sink ?a ?b] => destruct (drop_sink_same a b) as [E] end; rewrite E; reflexivity.
+Qed.
+
+(* a step that makes a batches entry disappear is an array reply from the server, or the client has shut down *)
+Theorem batch_leaves s e x : In x (batches (m s)) -> ~ In x (batches (m (fst (fst (step s e))))) ->
+  (exists raw ms, e = Back raw /\ classify_frame raw = FArray ms) \/ dead (fst (fst (step s e))) = true.
+Proof.
+  intros Hx Hn.
+  destruct (match e with Back raw => match classify_frame raw with FArray _ => true | _ => false end | _ => false end) eqn:AR.
+  { left. destruct e; try discriminate. destruct (classify_frame raw) eqn:CF; try discriminate. eauto. }
+  right.
+  assert (K1 : batches (m (fst (fst (apply s e)))) = batches (m s)).
+  { unfold apply. destruct (dead s) eqn:D.
+    - destruct e; cbn [fst]; auto.
+      + destruct (poll_next_same s sh). destruct (poll_next s sh). cbn [fst] in *. congruence.
+      + destruct (close_msg_of s sh); auto. destruct (chan_of s sh); auto.
+      + destruct (close_msg_of s sh); auto. destruct (chan_of s sh); auto.
+    - destruct e; cbn [fst]; auto;
+        try (unfold enqueue; match goal with |- context [enqueue_tagged ?a ?b ?c] => destruct (enqueue_tagged_sameq a b c) as [E] end; rewrite E; reflexivity).
+      + destruct entries; auto. cbn [fst].
+        unfold enqueue; match goal with |- context [enqueue_tagged ?a ?b ?c] => destruct (enqueue_tagged_sameq a b c) as [E] end; rewrite E; reflexivity.
+      + destruct (bytes_eqb sub unsub); auto. cbn [fst].
+        unfold enqueue; match goal with |- context [enqueue_tagged ?a ?b ?c] => destruct (enqueue_tagged_sameq a b c) as [E] end; rewrite E; reflexivity.
+      + destruct (poll_next_same s sh). destruct (poll_next s sh). cbn [fst] in *. congruence.
+      + destruct (close_msg_of s sh); auto. cbn [fst].
+        match goal with |- context [enqueue_tagged ?a ?b ?c] => destruct (enqueue_tagged_sameq a b c) as [E] end; rewrite E; reflexivity.
+      + destruct (close_msg_of s sh); auto. destruct (chan_of s sh); auto. cbn [fst].
+        match goal with |- context [try_enqueue ?a ?b] => destruct (try_enqueue_sameq a b) as [E] end; rewrite E; reflexivity.
+      + destruct (dying s); auto. destruct (classify_frame raw) as [x0|ms|] eqn:CF; [|discriminate|]; cbn [handle_back].
+        * pose proof (elem_single_batches s x0) as E. destruct (handle_elem_single s x0); cbn [rres_st fst] in *; auto.
+        * reflexivity. }
+  unfold step in *. destruct (apply s e) as [[s1 o1] r]. cbn [fst] in *.
+  pose proof (settle_keep s1) as K2. destruct (settle s1) as [s2 o2]. cbn [fst] in *.
+  destruct K2 as [K2 | K2]; auto. exfalso. apply Hn. apply K2. rewrite K1. exact Hx.
+Qed.
+
+(* C03: no two outstanding requests carry the same id on the wire -- single ids are pairwise distinct, batch ranges are
+   pairwise disjoint, and no single id lies in a batch range (table entries and queued messages together) *)
+Theorem wire_ids_distinct idstr qc bc gate es : let s := fst (run (init idstr qc bc gate) es) in
+  NoDup (map fst (requests (m s)) ++ queued_ids s) /\
+  (forall r1 r2, In r1 (map fst (batches (m s)) ++ queued_ranges s) -> In r2 (map fst (batches (m s)) ++ queued_ranges s) ->
+     r1 <> r2 -> forall n, ~ (in_range r1 n /\ in_range r2 n)) /\
+  (forall n r, In (mk_id s n) (map fst (requests (m s)) ++ queued_ids s) ->
+     In r (map fst (batches (m s)) ++ queued_ranges s) -> ~ in_range r n).
+Proof.
+  cbv zeta. destruct (reachable_spelled idstr qc bc gate es). auto.
 Qed.
